@@ -18,25 +18,23 @@ Reading aid.
   forest is built (conversion / graft by augment / FixChoice).  `ownerNs reg m` is the namespace
   that module's nodes must report.
 
-What is proved about the model for *all* trees, paths, registries: the theorems below.  What is not
-proved in this file as one end-to-end theorem: that the forest `processAll` returns is `Built` (the
-composition through `toEntry`, `augmentLoop`, the deviation pass).  Props/C12Bridge.lean proves it
-for `Built'` — `Built` plus the stamp-free steps the augment loop really takes (an error recorded on
-a root, `Find` creating an absent rpc input / output, storing back an unchanged tree) — with the
-provenance theorem carried over (`namespace_placedBy_prime`): `preDev_builtPrime` (the forest the
-deviations are applied to, for every input) and `processAll_builtPrime` (the final forest of an
-error-free run when no loaded module has a deviation statement).  The deviation pass with an
-applying deviation is still not threaded.  The three constructors of `Built` are exactly
-the stamp-relevant steps of `processAll` — `augmentStep_is_graft` shows a successful augment step is
-the `graft` constructor's forest with the augmenting tree's owner namespace, `uses_no_stamp` and
-`conversion_ops_no_stamp` show that every tree-building operation `toEntry` applies (add a child,
-merge without a namespace for uses and include, record errors, set a data field) keeps trees
-stamp-free — Props/C12Conv.lean carries this through `toEntry`'s fuel recursion
-(`toEntry_noStamp`, `conversion_forest_built`: the forest `Process` starts its augment phase from
-is `Built.init`) — and the remaining steps (error recording, `Find` creating an absent rpc
-input/output, deviations) write no stamp.  The composition through the augment loop and the
-deviation pass (`processAll_built_statement`) is kept visible as a statement; the end-to-end claim
-is what the correspondence runner checks on generated schemas with a Go-side provenance oracle.
+What is proved about the model for *all* trees, paths, registries: the theorems below.  The end-to-end
+composition — the forest `processAll` returns on an error-free run without deviations is `Built`
+(`processAll_built_statement`, kept as a `def` at the end of this file because its proof needs the
+bridge lemmas) — is PROVED in Props/C12Bridge.lean: `C12Bridge.processAll_built :
+C12.processAll_built_statement`, with `processAll_namespace_placedBy` as the corollary stated directly on
+`processAll`.  The three constructors of `Built` are exactly the stamp-relevant steps of `processAll` —
+`augmentStep_is_graft` shows a successful augment step is the `graft` constructor's forest with the
+augmenting tree's owner namespace, `uses_no_stamp` and `conversion_ops_no_stamp` show that every
+tree-building operation `toEntry` applies (add a child, merge without a namespace for uses and include,
+record errors, set a data field) keeps trees stamp-free — Props/C12Conv.lean carries this through
+`toEntry`'s fuel recursion (`toEntry_noStamp`, `conversion_forest_built`: the forest `Process` starts its
+augment phase from is `Built.init`).  The other steps the augment loop takes are accounted for in the
+bridge: an error recorded on a root never disappears, so it is absent on an error-free run; a tree stored
+back unchanged changes nothing; an rpc input / output created by `Find` is moved back through every
+earlier graft and `FixChoice` to the conversion (Lemmas/ConfigNsComm.lean, Lemmas/ConfigNsBuilt.lean).
+With deviations: Props/C12Bridge.lean `processAll_provenance` / `processAll_namespace_readOnly` (class
+`BuiltX`: `Built'` without error recording plus the two steps of the deviation stage).
 -/
 namespace Goyang.Props.C12
 open Goyang.Model
@@ -410,20 +408,22 @@ private def regRev : Registry :=
 example : instantiatingModuleAt regRev { trees := [(0, nd "m" (kids := [nd "c"])), (1, nd "m" (kids := [nd "c"]))] }
     (0, [.child "c"]) = some "m" := by decide
 
-/-! ### the end-to-end statement, kept visible -/
+/-! ### the end-to-end statement (proved in Props/C12Bridge.lean: `processAll_built`) -/
 
-/-- Not proved as a theorem (see the header): the forest of an error-free `processAll` run
-without deviations is `Built`, with a provenance that assigns every node of the initial trees to
-its tree's module and every grafted node to the module of the augment.  Proved: the start
-(`conversion_forest_built` in Props/C12Conv.lean: the converted forest is `Built.init` and every
-pending augment meets the premise of `graft`), each augment step (`augmentStep_is_graft`), the
-`FixChoice` step (constructor `fix` with `fixChoice_preserves`), and the theorem that gives the
-namespaces of any `Built` forest (`namespace_placedBy`).  Missing in this file: threading these through
-`augmentLoop`/`augmentPass` (swap-remove bookkeeping, `Find` creating an absent rpc input/output,
-error recording on the root) to obtain `Built` for the final forest — done in Props/C12Bridge.lean
-for `Built'` (`Built` with exactly those extra steps as constructors): `processAll_builtPrime` is this
-statement with `Built'` for `Built`.  The claim itself is checked
-by the correspondence runner (Go-side provenance oracle on generated schemas). -/
+/-- **Proved in Props/C12Bridge.lean** (`C12Bridge.processAll_built : processAll_built_statement`; the
+statement is kept here as a `def` because the proof needs the bridge lemmas, which import this file):
+the forest of an error-free `processAll` run without deviations is `Built`, with a provenance that
+assigns every node of the initial trees to its tree's module and every grafted node to the module of the
+augment.  Ingredients: the start (`conversion_forest_built` in Props/C12Conv.lean: the converted forest
+is `Built.init` and every pending augment meets the premise of `graft`), each augment step
+(`augmentStep_is_graft`), the `FixChoice` step (constructor `fix` with `fixChoice_preserves`), the
+theorem that gives the namespaces of any `Built` forest (`namespace_placedBy`), and — in the bridge —
+the threading through `augmentLoop` / `augmentPass` / the leftover pass with the three steps `Built` has
+no constructor for: error recording on a root (absent on an error-free run: such errors stay), storing a
+tree back unchanged, and `Find` creating an absent rpc input / output (commuted back to the conversion:
+`C12Bridge.builtU_closed_implicit`).  With `Built'` for `Built` the statement holds for every input
+(`C12Bridge.preDev_builtPrime`); the claim itself is also checked by the correspondence runner (Go-side
+provenance oracle on generated schemas). -/
 def processAll_built_statement : Prop :=
   ∀ (reg : Registry) (opts : Opts) (plug : Plug),
     (processAll reg opts plug).errors = [] →
